@@ -24,7 +24,12 @@ PLANS = {
     ),
     "C02": dict(
         mc=[dict(model="MC_EqWords", quick="MC_EqWords_fixed.cfg", thorough="MC_EqWords_fixed32.cfg"),
-            dict(model="MC_EqWords", quick="MC_EqWords_shipped.cfg", only="thorough", expect_violation="VerdictRight")],
+            dict(model="MC_EqWords", quick="MC_EqWords_shipped.cfg", only="thorough", expect_violation="VerdictRight"),
+            dict(model="MC_CmpMech", quick="MC_CmpMech_quick.cfg", thorough="MC_CmpMech_quick.cfg"),
+            dict(model="MC_CmpMech", quick="MC_CmpMech_slip.cfg", only="thorough", expect_violation="Right"),
+            dict(model="MC_CmpMech", quick="MC_CmpMech_NeverAtDigitTail.cfg", only="thorough", expect_violation="NeverAtDigitTail"),
+            dict(model="MC_CmpMech", quick="MC_CmpMech_NeverAtCount.cfg", only="thorough", expect_violation="NeverAtCount"),
+            dict(model="MC_CmpMech", quick="MC_CmpMech_NeverAtScalar2.cfg", only="thorough", expect_violation="NeverAtScalar2")],
         mcgen=[dict(model="MC_Cmp", quick="MC_Cmp_quick.cfg", thorough="MC_Cmp_thorough.cfg")],
         profiles=["checked", "release"],
         drive=True, shard=12000,
